@@ -28,33 +28,46 @@ _ALL = '{"dict","idict","list","tuple","obj"}'
 TIERS = {
     'quick': dict(Mutant='"none"', MaxSpine='1', LevelClasses='{"dict","list","tuple","obj"}',
                   LeafOpts='{"none","str","edict"}', SideOpts='{"shared"}', Alpha='"small"', Alpha3='"p"',
-                  Profiles='{"plain","vals","miss","missval","missflag"}'),
+                  Profiles='{"plain","vals","miss","missval","missflag"}', Reuse='FALSE'),
     'thorough': dict(Mutant='"none"', MaxSpine='2', LevelClasses='{"dict","list","tuple","obj"}',
                      LeafOpts='{"none","edict","fset"}',
                      SideOpts='{"shared"}', Alpha='"small"', Alpha3='"p"',
-                     Profiles='{"plain","vals","miss","missval","missflag"}'),
+                     Profiles='{"plain","vals","miss","missval","missflag"}', Reuse='FALSE'),
 }
 # wildcard destinations: '*' among the parent segments, broadcast in order, partial on error
 STAR = {
     'quick': dict(Mutant='"none"', MaxSpine='2', LevelClasses='{"dict","list"}', LeafOpts='{"none","edict"}',
-                  SideOpts='{"none"}', Alpha='"small"', Alpha3='"none"', Profiles='{"star"}'),
+                  SideOpts='{"none"}', Alpha='"small"', Alpha3='"none"', Profiles='{"star"}', Reuse='FALSE'),
     'thorough': dict(Mutant='"none"', MaxSpine='2', LevelClasses='{"dict","list","tuple","obj"}',
                      LeafOpts='{"none","str","edict"}', SideOpts='{"none"}', Alpha='"small"', Alpha3='"none"',
-                     Profiles='{"star"}'),
+                     Profiles='{"star"}', Reuse='FALSE'),
+}
+# ONE Assign spec object evaluated on two targets in sequence and through a list spec: every ordered
+# pair of targets, so the prefix stops existing at segment i on the first and at segment j on the second
+REUSE = {
+    'quick': dict(Mutant='"none"', MaxSpine='2', LevelClasses='{"dict"}', LeafOpts='{"none","edict"}',
+                  SideOpts='{"shared"}', Alpha='"tiny"', Alpha3='"p"', Profiles='{"reuse"}', Reuse='TRUE'),
+    'thorough': dict(Mutant='"none"', MaxSpine='2', LevelClasses='{"dict","obj"}', LeafOpts='{"none","edict"}',
+                     SideOpts='{"shared"}', Alpha='"tiny"', Alpha3='"p"', Profiles='{"reuse"}', Reuse='TRUE'),
 }
 # second, deeper-alphabet universe of the thorough tier (shallower targets)
 THOROUGH_WIDE = dict(Mutant='"none"', MaxSpine='1', LevelClasses=_ALL,
                      LeafOpts='{"str","elist"}',
                      SideOpts='{"absent","shared","empty"}', Alpha='"full"', Alpha3='"p"',
-                     Profiles='{"plain","vals","miss","missval","missflag"}')
+                     Profiles='{"plain","vals","miss","missval","missflag"}', Reuse='FALSE')
 MUTANT_UNIVERSE = dict(MaxSpine='1', LevelClasses='{"dict","list","obj"}', LeafOpts='{"none","edict"}',
                        SideOpts='{"absent","shared"}', Alpha='"small"', Alpha3='"p"',
-                       Profiles='{"plain","miss","missflag"}')
+                       Profiles='{"plain","miss","missval","missflag"}', Reuse='FALSE')
 COVERAGE_UNIVERSE = dict(MaxSpine='1', LevelClasses='{"dict"}', LeafOpts='{"edict"}', SideOpts='{"absent"}',
-                         Alpha='"small"', Alpha3='"p"', Profiles='{"miss"}')
+                         Alpha='"small"', Alpha3='"p"', Profiles='{"miss"}', Reuse='FALSE')
 MUTANTS = {'attach_first': ('NoEarlyWrite', 'AttachLast', 'Outcome'),
            'factory_per_segment': ('FactoryLaw',),
-           'replace_existing': ('Outcome', 'NeverReplaced', 'ReadBack')}
+           'replace_existing': ('Outcome', 'NeverReplaced', 'ReadBack'),
+           # historic behaviours of glom (repaired: c7a278c, 39e101a); the law must reject them
+           'tail_copies_value': ('Outcome', 'ReadBack'),
+           'tail_value_lost': ('Outcome', 'ReadBack'),
+           # state kept on the spec object between evaluations
+           'memo_split': dict(universe=None, laws=('SpecCarriesNothing', 'Outcome', 'NeverReplaced', 'FactoryLaw'))}
 NRANDOM = {'quick': 6000, 'thorough': 60000}
 
 ASSUMPTIONS = [
@@ -67,6 +80,9 @@ ASSUMPTIONS = [
     'property, raising factory); at most one faulty cell per case',
     'the class of the escaping error is only compared where the documentation names it (PathAccessError for a '
     'missing parent without missing=); other classes are recorded as drift against the mechanism model',
+    'spec-object reuse: one Assign(path, literal, missing=dict|obj) object on every ordered pair of targets of a '
+    'small family (two glom calls; one call over a list of the two targets when both are expected to succeed), and '
+    'random pairs in the recorded direction; assign() itself builds a fresh spec per call',
     'wildcards: only * (not **), only among the parent segments and without missing=; a failing match ends the '
     'broadcast with the earlier matches assigned (no atomicity is claimed for wildcard paths); sets are never '
     'enumerated by a wildcard (iteration order)',
@@ -74,96 +90,16 @@ ASSUMPTIONS = [
 ]
 
 
-def _val_is_container(case):
-    vs = case['val']
-    if vs['k'] == 'lit':
-        return False
-    return True
-
-
-def _diff_positions(exp_heap, obs_heap):
-    """(cell, item index, expected, observed) of every differing entry; None if shapes differ."""
-    if len(exp_heap) != len(obs_heap):
-        return None
-    out = []
-    for a, (e, o) in enumerate(zip(exp_heap, obs_heap), 1):
-        if e['cls'] != o['cls'] or len(e['items']) != len(o['items']):
-            return None
-        for i, (x, y) in enumerate(zip(e['items'], o['items'])):
-            if x != y:
-                out.append((a, i, x, y))
-    return out
-
-
-def _copied_value(info):
-    case, exp, obs = info['case'], info.get('exp'), info['obs']
-    rebuilt = ('set', 'frozenset') if info.get('logging', True) else ('dict', 'list', 'tuple', 'set', 'frozenset')
-    if not (case['missing'] != 'none' and case['val']['k'] in ('spec', 't') and info.get('clause') == 'heap-effect'
-            and obs['ok'] and obs.get('nfac', 0) >= 1):
-        return False
-    # the value the spec denotes (abstract walk over the recorded heap)
-    v = case['root']
-    for st in case['val']['steps']:
-        v = lib.abstract_step(case['heap0'], v, st)
-        if v is None:
-            return False
-    if v['k'] != 'ref' or case['heap0'][v['a'] - 1]['cls'] not in rebuilt:
-        return False
-    vcls = case['heap0'][v['a'] - 1]['cls']
-    if exp is not None:
-        diffs = _diff_positions(exp['heap'], obs['heap'])
-        if not diffs:
-            return False
-        for a, i, x, y in diffs:
-            xv = x[1] if isinstance(x, list) else x
-            yv = y[1] if isinstance(y, list) else y
-            if isinstance(x, list) and x[0] != y[0]:
-                return False
-            if not (xv == v and yv.get('k') == 'opaque' and yv.get('s') == vcls):
-                return False
-        return True
-    # recorded row (no expectation at hand): exactly one unknown object of the value's class is stored,
-    # and nothing refers to the value where the unknown object sits
-    unknown = [it for c in obs['heap'] for it in c['items']
-               for x in ([it[1]] if isinstance(it, list) and len(it) == 2 and isinstance(it[0], dict) and c['cls'] in ('dict', 'obj') else [it])
-               if isinstance(x, dict) and x.get('k') == 'opaque']
-    return len(unknown) == 1 and all((u[1] if isinstance(u, list) else u).get('s') == vcls for u in unknown)
-
-
 def match_finding(f, info):
-    """Known findings of C11 (narrow: call site + input predicate + the exact deviation)."""
-    m = f.get('match', {})
-    case, exp, obs = info.get('case'), info.get('exp'), info.get('obs')
-    if not case or case.get('kind') != 'assign' or not obs:
-        return False
-    if m.get('kind') == 'missing-copies-value':
-        # Assign.glomit re-evaluates the already evaluated value with arg_val() in the nested
-        # Assign of the missing= branch: a value of exact type dict / list / tuple / set / frozenset
-        # obtained through Spec / T is rebuilt (the logging classes are subclasses, except sets)
-        return _copied_value(info)
-    if m.get('kind') == 'sroot-missing-loses-value':
-        # an S-rooted destination with missing=: the remaining path keeps the S root, so the nested
-        # Assign writes into the scope instead of the new container
-        return (info.get('spelling', '').startswith('S-') and case['missing'] != 'none'
-                and obs.get('nfac', 0) >= 1 and info.get('clause') in m.get('clauses', ['heap-effect']))
+    """No known finding is open for C11 (the three historic defects are repaired in glom and live on
+    as spec mutants tail_copies_value / tail_value_lost): every disagreement is a VIOLATION."""
     return False
 
 
-def match_finding_rows(f, info):
-    # findings about S-rooted destinations can also show up in recorded rows
-    m = f.get('match', {})
-    case, obs = info['case'], info['obs']
-    if m.get('kind') == 'missing-copies-value':
-        return _copied_value(info)
-    if m.get('kind') == 'sroot-missing-loses-value':
-        return (info.get('spelling', '').startswith('S-') and case['missing'] != 'none'
-                and obs.get('nfac', 0) >= 1 and info['clause'] in m.get('clauses', ['heap-effect']))
-    return False
-
-
+MUTANTS['memo_split']['universe'] = {k: v for k, v in REUSE['quick'].items() if k != 'Mutant'}
 DRIVER = lib.Driver(PROP, KIND, MC, TRACE,
                     need=['Choose', 'A_EvalVal', 'A_FetchParent', 'A_FactoryCall', 'A_BuildTail', 'A_Store'],
-                    match=match_finding, match_rows=match_finding_rows,
+                    match=match_finding, match_rows=match_finding,
                     mutants=MUTANTS, mutant_universe=MUTANT_UNIVERSE, coverage_universe=COVERAGE_UNIVERSE)
 
 RULE = ('TLC enumerates every (target spine, destination path, value, missing factory, fault plan) within the '
@@ -173,7 +109,8 @@ RULE = ('TLC enumerates every (target spine, destination path, value, missing fa
 
 
 def main(tier, seed):
-    universes = [(tier, TIERS[tier]), (tier + '-star', STAR[tier], tier == 'thorough')]
+    universes = [(tier, TIERS[tier]), (tier + '-star', STAR[tier], tier == 'thorough'),
+                 (tier + '-reuse', REUSE[tier], tier == 'thorough')]
     if tier == 'thorough':
         universes.append(('thorough-wide', THOROUGH_WIDE))
     return DRIVER.main(tier, seed, universes, NRANDOM[tier], ASSUMPTIONS, RULE)
